@@ -11,8 +11,8 @@ pub fn meta() -> Meta {
     Meta {
         id: "C17",
         level: "exploration",
-        rule: "planted-SNP families through `ska build` + `ska lo` (CLI, one thread, hash seeds owned by the shim: 2 quick / 4 thorough): ancestors of length 10k+1 whose (k-1)-mers are unique on both strands; k in {7,9,15,21,31,33} (thorough: every odd k in 7..33); sites = every non-empty subset of the grid {3k, 5k, 7k+1} (spacing exactly 2k and 2k+1, margins 3k); allele assignments = every biallelic split for n=3,4,5 samples, every triallelic assignment for n=3 (thorough: n=4) and carrier patterns for n=6,8,10; sample orientations; without reference and (k>=15) with the ancestor as reference; -m in {0, 0.1, 0.2}. Oracle without reference: the column multiset modulo whole-column complement equals the planted one. With reference (soundness): every VCF record lies at a planted site, REF is the ancestor base, every given genotype decodes to that sample's true base, pseudo-genomes have the ancestor's length and agree with each sample at every called position. Well-formedness family outside the premise (SNP pairs at every distance 1..2k, SNP next to an indel, three alleles at adjacent sites, a sample lacking a region): equal sequence lengths, >= 2 distinct A/C/G/T per column, missing fraction <= m. Cases whose derived samples break (k-1)-mer uniqueness are trivial and not judged for completeness.".into(),
-        assumptions: vec!["hash-seed space is a declared finite set (2/4 seeds); thread counts are C11's".into(), "release-profile arithmetic (DESIGN §2)".into()],
+        rule: "planted-SNP families through `ska build` + `ska lo` (CLI, one thread, hash seeds owned by the shim: 2 quick / 3 thorough): ancestors of length 10k+1 whose (k-1)-mers are unique on both strands; k in {7,9,15,21,31,33} (thorough: every odd k in 7..33); sites = every non-empty subset of the grid {3k, 5k, 7k+1} (spacing exactly 2k and 2k+1, margins 3k); allele assignments = every biallelic split for n=3,4,5 samples, every triallelic assignment for n=3 (thorough: n=4) and carrier patterns for n=6,8,10; sample orientations; without reference and (k>=15) with the ancestor as reference; -m in {0, 0.1, 0.2}. Oracle without reference: the column multiset modulo whole-column complement equals the planted one. With reference (soundness): every VCF record lies at a planted site, REF is the ancestor base, every given genotype decodes to that sample's true base, pseudo-genomes have the ancestor's length and agree with each sample at every called position. Well-formedness family outside the premise (SNP pairs at every distance 1..2k, SNP next to an indel, three alleles at adjacent sites, a sample lacking a region): equal sequence lengths, >= 2 distinct A/C/G/T per column, missing fraction <= m. Cases whose derived samples break (k-1)-mer uniqueness are trivial and not judged for completeness.".into(),
+        assumptions: vec!["hash-seed space is a declared finite set (2/3 seeds); thread counts are C11's".into(), "release-profile arithmetic (DESIGN §2)".into()],
         exhaustive_when_uncapped: true,
     }
 }
@@ -169,7 +169,7 @@ pub fn assignments(n: usize, tri: bool) -> Vec<Vec<u8>> {
 pub fn run(ctx: &Ctx, rep: &mut Report) {
     let thorough = ctx.tier.thorough();
     let ks: Vec<usize> = if thorough { (7..=33).step_by(2).collect() } else { vec![7, 9, 15, 21, 31, 33] };
-    let seeds: Vec<u64> = if thorough { (0..4).map(|i| ctx.seed + i).collect() } else { vec![ctx.seed, ctx.seed + 1] };
+    let seeds: Vec<u64> = if thorough { (0..3).map(|i| ctx.seed + i).collect() } else { vec![ctx.seed, ctx.seed + 1] };
     let dir = scratch::path("c17");
     let mut idx = 0u64;
     'all: for k in ks {
@@ -184,8 +184,10 @@ pub fn run(ctx: &Ctx, rep: &mut Report) {
             for (n, tri) in plans {
                 let asg = assignments(n, tri);
                 for (ai, a) in asg.iter().enumerate() {
-                    let orients: Vec<Vec<bool>> = if n <= 3 || (thorough && n <= 4) {
+                    let orients: Vec<Vec<bool>> = if n <= 3 {
                         (0..(1u32 << n)).map(|m| (0..n).map(|i| m & (1 << i) != 0).collect()).collect()
+                    } else if thorough && n == 4 && !tri {
+                        vec![vec![false; n], vec![true; n], (0..n).map(|i| i % 2 == 0).collect(), (0..n).map(|i| i == 2).collect()]
                     } else {
                         vec![vec![false; n], (0..n).map(|i| i % 2 == 0).collect()]
                     };
